@@ -74,6 +74,9 @@ type PathEnd struct {
 	Counts Counts
 	Trace  []int
 	Events []string
+	// Ret: for paths ending in a return, the results with phis resolved along
+	// the path (and deferred-return spills looked through).
+	Ret []ssa.Value
 }
 
 type Walker struct {
@@ -94,6 +97,9 @@ type Walker struct {
 	// NonNil lets a rule declare further values as never nil (e.g. values
 	// received from a channel on which only non-nil values are sent).
 	NonNil func(v ssa.Value) bool
+	// AssumeNonNil: values known to be non-nil at the start of Walk (e.g. the
+	// error on the non-nil edge the walk starts from).
+	AssumeNonNil []ssa.Value
 
 	npaths   int
 	overflow bool
@@ -297,6 +303,13 @@ func (w *Walker) Walk(fn *ssa.Function, from Loc) []PathEnd {
 	st := &PState{Counts: Counts{}, memo: map[string]bool{}, phi: map[*ssa.Phi]ssa.Value{}, visits: map[*ssa.BasicBlock]int{}}
 	st.visits[from.B] = 1
 	st.Trace = []int{from.B.Index}
+	for _, v := range w.AssumeNonNil {
+		if f, base := loadedField(v); f != nil {
+			st.memo[fmt.Sprintf("f:%p:%p", f, origin(base))] = false
+		} else {
+			st.memo[fmt.Sprintf("n:%p@%d", v, st.visitOf(v))] = false
+		}
+	}
 	// deferred calls registered before `from` on every path are in force
 	allInstrs(fn, func(ins ssa.Instruction) {
 		if d, ok := ins.(*ssa.Defer); ok && from.I >= 0 {
@@ -481,7 +494,13 @@ func (w *Walker) end(st *PState, at ssa.Instruction, ends *[]PathEnd) {
 		w.overflow = true
 		return
 	}
-	*ends = append(*ends, PathEnd{At: at, Counts: st.Counts.clone(), Trace: st.Trace, Events: st.Events})
+	pe := PathEnd{At: at, Counts: st.Counts.clone(), Trace: st.Trace, Events: st.Events}
+	if ret, ok := at.(*ssa.Return); ok {
+		for i := range ret.Results {
+			pe.Ret = append(pe.Ret, w.resolve(st, retValue(ret, i)))
+		}
+	}
+	*ends = append(*ends, pe)
 }
 
 func traceStr(t []int) string {
